@@ -17,13 +17,13 @@ import (
 
 // Node is a canonical expression tree.
 type Node struct {
-	K string  // kind: param, const, field, call, extract, bin, un, phi, local, new, index, slice, lookup, assert, conv, closure, global, func, builtin, fv, make, range, next, select, recv, opaque
-	L string  // label: param index, const text, field name, callee, operator, …
-	A []*Node // children
-	T types.Type
-	Fn interface{} // *ssa.Function of a static callee (call nodes)
-	Ord int        // >1: the n-th syntactically identical call in its function (rendered name@n)
-	s string
+	K   string  // kind: param, const, field, call, extract, bin, un, phi, local, new, index, slice, lookup, assert, conv, closure, global, func, builtin, fv, make, range, next, select, recv, opaque
+	L   string  // label: param index, const text, field name, callee, operator, …
+	A   []*Node // children
+	T   types.Type
+	Fn  interface{} // *ssa.Function of a static callee (call nodes)
+	Ord int         // >1: the n-th syntactically identical call in its function (rendered name@n)
+	s   string
 }
 
 func (n *Node) String() string {
